@@ -4,7 +4,7 @@
    read (write_csv ts) in the reader model, for tables with zero or more rows and zero or more columns.  The same composition is, in
    addition, evaluated on every generated bundle by the correspondence check (Corr/C01.v). *)
 From Coq Require Import List Arith.
-From PdV Require Import Text TextProofs WriteProofs ParseTable DestsRoundTrip RoundTrip RoundTripZero PlainLines.
+From PdV Require Import Text TextProofs WriteProofs ParseTable DestsRoundTrip RoundTrip RoundTripZero PlainLines RoundTripCorollaries.
 From PdV.Model Require Import Marker.
 From PdV.Model Require Import WriteCsv Segment Reader.
 Import ListNotations.
@@ -101,7 +101,24 @@ Theorem C01_cell_plain_nocolon :
 Proof. exact cell_plain_nocolon. Qed.
 Print Assumptions C01_cell_plain_nocolon.
 
-(* non-vacuity: a transposed table with an empty string in a non-first text column keeps it *)
+(* ... so that the read-back table carries exactly the written destinations ... *)
+Theorem C01_read_back_destinations :
+  forall t : wtable,
+    w_dests t <> [] -> Forall dest_ok (w_dests t) -> p_dests (table_read_back t) = w_dests t.
+Proof. exact table_read_back_dests. Qed.
+Print Assumptions C01_read_back_destinations.
+
+(* ... and for tables with rows the block-shape hypothesis of C01_bundle_roundtrip_any (plain_core,
+   stated on the written rows) follows from the same first-cell conditions.  For tables without rows
+   or without columns plain_core remains a (decidable, computable) hypothesis on the written lines. *)
+Theorem C01_plain_core_from_first_cells :
+  forall (parse_float : str -> option ftok) (parse_dt : str -> dres) (sep : N) (t : wtable),
+    wf_table parse_float parse_dt sep t -> first_cells_plain t -> plain_core sep t.
+Proof. exact plain_core_from_first_cells. Qed.
+Print Assumptions C01_plain_core_from_first_cells.
+
+(* what the writer model produces for a transposed table with an empty string in a non-first text column
+   (the lines only; that reading them back keeps the empty string is RoundTripExample.v) *)
 Example C01_example :
   let n (l : list N) : str := l in
   table_lines 59%N {| w_name := n [116%N]; w_dests := [n [97%N]]; w_transposed := true;
